@@ -65,7 +65,7 @@ class PBView:
         self.body = prog.one(r"private_batch::circuit::circuit_logic::build_private_batch_constraints$", AGG)
         ck.saw(self.body)
         # helpers of the aggregator crate are expanded in place (an extracted helper is the same circuit); gadgets of the common crate stay atomic
-        self.ev = T.Evaluator(prog, inline=lambda p: (p.startswith(AGG + "::") or p.startswith("<" + AGG + "::")) and "{closure" not in p, names=False)
+        self.ev = T.Evaluator(prog, inline=lambda p: (p.startswith(AGG + "::") or p.startswith("<" + AGG + "::")) and "{closure" not in p, names=False, stamp_loops=True)
         self.fr = self.ev.frame(self.body)
         self.effects = self.fr.effects()
         for e in self.effects:
@@ -464,7 +464,18 @@ def analyse(ck, prog=None):
     def slot_loop(e_):
         ns_ = nest(e_)
         x = ns_.var(0) if ns_.depth() == 1 else None
-        return x if (x is not None and x[1] == 0 and not isinstance(x[2], int) and twice_n(x[2])) else None
+        return x if (x is not None and slot_dom(x)) else None
+
+    def slot_dom(x):
+        """x ranges over the 2 * n_leaf exit slots: 0..2n, or 0..len(v) for a vector v holding exactly one entry per slot"""
+        if not (isinstance(x, tuple) and len(x) == 4 and x[0] == "lv" and x[1] == 0) or isinstance(x[2], int):
+            return False
+        if twice_n(x[2]):
+            return True
+        if isinstance(x[2], tuple) and len(x[2]) == 2 and x[2][0] == "len":
+            f = v.filled(x[2][1])
+            return f is not None and f[1][1] == 0 and not isinstance(f[1][2], int) and twice_n(f[1][2])
+        return False
 
     slot_items = [it for it in body_items if it[2] is not None and slot_loop(it[2]) is not None]
     good = len(slot_items) == 5
@@ -522,8 +533,8 @@ def analyse(ck, prog=None):
             if gsum:
                 # the summation variable ranges over all of both vectors: their zip in full, or 0..2n when both hold one entry per slot
                 fse, fsa = v.filled(SE), v.filled(SA)
-                per_slot = fse is not None and fsa is not None and fse[1] == slot and fsa[1] == slot
-                whole = vj[2] in (("minlen", SE, SA), ("minlen", SA, SE)) or (per_slot and (vj[1:3] == slot[1:3] or vj[2] in (("len", SE), ("len", SA))))
+                per_slot = fse is not None and fsa is not None and slot_dom(fse[1]) and slot_dom(fsa[1])
+                whole = vj[2] in (("minlen", SE, SA), ("minlen", SA, SE)) or (per_slot and slot_dom(vj))
                 ob.add({"C08"}, whole, "TERM", "pb/group/sum-over-all", "the summation ranges over every (slot_exits[j], slot_amounts[j]) pair (the zip of both vectors, or 0..2n) without take/skip", loc(e_s), T.show(vj))
                 # is_duplicate
                 gd = False
@@ -608,14 +619,17 @@ def analyse(ck, prog=None):
 
     # ---------------------------------------------------------------- nullifier region
     after = [it for it in body_items if it not in slot_items]
-    null_items = [it for it in after if it[2] is not None and any(P.call_name(l) and P.call_name(l).endswith("gadgets::sort_digests4") for l in circ.loops_of(it[2]))]
+    def unstamp(l):
+        return l[2] if (isinstance(l, tuple) and len(l) == 3 and l[0] == "rng") else l
+
+    null_items = [it for it in after if it[2] is not None and any(P.call_name(unstamp(l)) and P.call_name(unstamp(l)).endswith("gadgets::sort_digests4") for l in circ.loops_of(it[2]))]
     okn = len(null_items) == 1 and null_items[0][0] == "all"
     SN = None
     if okn:
         e = null_items[0][2]
         lp3 = circ.loops_of(e)[0]
         okn = P.norm(null_items[0][1]) == ("elem", lp3) and len(circ.loops_of(e)) == 1
-        SN = P.norm(lp3[4][1])
+        SN = P.norm(unstamp(lp3)[4][1])
     ob.add({"C06", "C09", "C10"}, okn, "ORDER+PROV", "pb/out/nullifiers-sorted", "the nullifier region is appended digest by digest from the result of sort_digests4(selected_nullifiers)", loc(null_items[0][2]) if null_items else loc0,
            [(k, T.show(t)[:200]) for k, t, _ in after[:4]])
     if SN is not None:
